@@ -121,7 +121,7 @@ def variant_spec(spec, rng, name=None, keep_order=True):
         doc = parse_doc(text)
         hosts = doc["host_configurations"]
         muts = ["scan", "probs_one", "probs", "costs", "swap_hosts",
-                "access", "fw_open", "fw_some", "limit"]
+                "access", "fw_open", "fw_some", "limit", "public"]
         if not keep_order:
             muts += ["reorder", "reorder", "reorder"]
         for m in rng.sample(muts, rng.randint(1, 3)):
@@ -160,6 +160,17 @@ def variant_spec(spec, rng, name=None, keep_order=True):
                         doc["firewall"][k] = []
             elif m == "limit":
                 doc["step_limit"] = rng.choice([5, 50, 1000])
+            elif m == "public":
+                # another subnet is open to the internet (topology and the
+                # two firewall rules); the vector layout stays the same
+                n = len(doc["subnets"])
+                T = doc["topology"]
+                closed = [j for j in range(1, n + 1) if not T[0][j]]
+                if closed:
+                    j = rng.choice(closed)
+                    T[0][j] = T[j][0] = 1
+                    doc["firewall"][docgen.A(0, j)] = list(doc["services"])
+                    doc["firewall"][docgen.A(j, 0)] = []
             elif m == "reorder":
                 for sec in ("os", "services", "processes"):
                     names = list(doc[sec])
